@@ -100,6 +100,7 @@ def apply_rewrites(item, rules, log, extra=None):
     if "R-strop" in rules:
         # byte slicing of a `str`: the `Index` impls of `str` have no Verus spec (and cannot be given one from
         # outside vstd), so the three slice forms become calls of stand-ins with the std semantics as assumed contract
+        t = _sub_logged("R-strop", r"&\s*([A-Za-z_][\w\.]*(?:\(\))?)\[\s*([^\[\]\.]+?)\s*\.\.=\s*([^\[\]=\.]+?)\s*\]", r"vx_slice(\1, \2, \3 + 1)", t, log, item)
         t = _sub_logged("R-strop", r"&\s*([A-Za-z_][\w\.]*(?:\(\))?)\[\s*([^\[\]]+?)\s*\.\.\s*\]", r"vx_slice_from(\1, \2)", t, log, item)
         t = _sub_logged("R-strop", r"&\s*([A-Za-z_][\w\.]*(?:\(\))?)\[\s*\.\.\s*([^\[\]=]+?)\s*\]", r"vx_slice_to(\1, \2)", t, log, item)
         t = _sub_logged("R-strop", r"&\s*([A-Za-z_][\w\.]*(?:\(\))?)\[\s*([^\[\]\.]+?)\s*\.\.\s*([^\[\]=\.]+?)\s*\]", r"vx_slice(\1, \2, \3)", t, log, item)
@@ -181,16 +182,25 @@ def _loops(toks, code, body_open, body_close):
     return out
 
 
+def _section_added_nothing(si, n_before, total):
+    keys = sorted(n_before)
+    k = keys.index(si)
+    nxt = n_before[keys[k + 1]] if k + 1 < len(keys) else total
+    return nxt == n_before[si]
+
+
 def weave_fn(item_text, fnpath, sections, origin_file, origin_line):
     """returns list of segments [(text, (file, line))] for one fn item"""
     toks, code, kfn, arrow, where_tok, body_open, body_close = _fn_layout(item_text)
     ins = []
     used = set()
     loops = None
+    n_before = {}
     for si, s in enumerate(sections):
         if s.target != fnpath:
             continue
         used.add(si)
+        n_before[si] = len(ins)
         if s.kind == "sig":
             ret = s.args.get("ret")
             if ret:
@@ -306,6 +316,8 @@ def weave_fn(item_text, fnpath, sections, origin_file, origin_line):
                 ins.append(Insertion(found + len(pat), " }", (s.file, s.line)))
         else:
             raise ValueError("%s:%d: unknown section kind %r" % (s.file, s.line, s.kind))
+    dropped = [sections[si] for si in n_before if sections[si].args.get("opt") and len(ins) == n_before[si] and
+               (si == max(n_before) or True) and _section_added_nothing(si, n_before, len(ins))]
     # assemble
     ins.sort(key=lambda i: i.off)
     segs = []
@@ -322,4 +334,5 @@ def weave_fn(item_text, fnpath, sections, origin_file, origin_line):
         segs.append((i.text, i.origin, False))
         pos = max(pos, i.off if i.replace_to < 0 else i.replace_to)
     emit_src(pos, len(item_text))
+    weave_fn.last_dropped = ["%s %s %s" % (d.kind, d.target, d.args.get("pattern") or " ".join(d.args.get("_pos", []))) for d in dropped]
     return segs, used
